@@ -93,6 +93,16 @@ func c12run(exit int, variant [4]int, nctx int, relTmp bool) (sig, what, outcome
 		}
 	}
 	os.Setenv("C12_CASE", caseDir)
+	// the operator's own environment may hold variables named like the hook's (a pod env var
+	// METRICS_PATH=/metrics, an operator started from a hook of another operator): the hook gets
+	// the paths of its own execution
+	for _, k := range []string{"BINDING_CONTEXT_PATH", "METRICS_PATH", "KUBERNETES_PATCH_PATH", "VALIDATING_RESPONSE_PATH", "ADMISSION_RESPONSE_PATH", "CONVERSION_RESPONSE_PATH"} {
+		if relTmp {
+			os.Setenv(k, filepath.Join(caseDir, "foreign-"+k))
+		} else {
+			os.Unsetenv(k)
+		}
+	}
 	executor.ZZStandIn = nil // real processes
 	defer func() {
 		if r := recover(); r != nil {
